@@ -300,6 +300,49 @@ def cases(tier):
 # -- serialisation method name ------------------------------------------------------------
 
 
+def rpc_ser_cases(tier):
+    for ser in ("list", "custom-list"):
+        for form in ("2.0", "1.0"):
+            for sv in (2.0, 1.0):
+                for place in ("result", "batch"):
+                    yield (ser, form, sv, place)
+
+
+def check_rpc_ser(case):
+    """The configured method name must also be the one consulted when a server dumps a result (any request form)."""
+    import json
+    from jsonrpclib.SimpleJSONRPCServer import SimpleJSONRPCDispatcher
+
+    ser, form, sv, place = case
+    out = Out(cls="rpc-method-name/%s/%s" % (ser, form))
+    spec = ("dict", (("a",),), ser, "none")
+    cls, fields, modname = classgen.build(spec)
+    cfg = Config(version=sv, serialize_method="toJson" if ser == "custom-list" else "_serialize", ignore_attribute="skipThese")
+
+    def give():
+        o = cls(1, "two", [3])
+        o.extra = "E"
+        return [o]
+
+    d = SimpleJSONRPCDispatcher(config=cfg)
+    d.register_function(give)
+    req = {"method": "give", "params": [], "id": 1}
+    if form == "2.0":
+        req["jsonrpc"] = "2.0"
+    body = json.dumps([req] if place == "batch" else req)
+    try:
+        reply = json.loads(d._marshaled_dispatch(body))
+    except Exception as ex:
+        return out.bad("C20/rpc/raises-%s" % type(ex).__name__, "%r raised %r" % (case, ex))
+    r = reply[0] if isinstance(reply, list) else reply
+    node = find_bean(r.get("result"), cls.__name__) if isinstance(r, dict) else None
+    if node is None:
+        return out.bad("C20/rpc/configured-serialisation-method-not-used", "%r: reply %r" % (case, reply))
+    if node.get("__jsonclass__", [None, None])[1:] != [[1, "two", [3]]] or node.get("extra") != "E":
+        out.bad("C20/rpc/configured-serialisation-method-not-used", "%r: result dumped as %r, expected the configured method's constructor args" % (case, node))
+    return out
+
+
 def ser_cases(tier):
     for ser in ("list", "custom-list"):
         for naming in ("defaults", "config-names", "call-names"):
@@ -425,7 +468,11 @@ def leg_ser(part, tier, shard, nshards):
     drive(part, "method-name", ser_cases(tier), shard, nshards, check_ser)
 
 
-LEGS = {"customisation": leg_custom, "method-name": leg_ser, "config-history": leg_history}
+def leg_rpc_ser(part, tier, shard, nshards):
+    drive(part, "rpc-method-name", rpc_ser_cases(tier), shard, nshards, check_rpc_ser)
+
+
+LEGS = {"customisation": leg_custom, "method-name": leg_ser, "rpc-method-name": leg_rpc_ser, "config-history": leg_history}
 
 META = {
     "technique": "bounded-exhaustive enumeration of generated classes, ignore lists, handler tables, contexts and configured names against a reference walk "
@@ -447,6 +494,8 @@ def replay(case):
     c = eval(case["case"], {"__builtins__": {}}, {})
     if case["leg"] == "method-name":
         return check_ser(c).viols
+    if case["leg"] == "rpc-method-name":
+        return check_rpc_ser(c).viols
     if case["leg"] == "config-history":
         return check_history(c).viols
     return run_case(c).viols
